@@ -49,8 +49,11 @@ def main():
        "init_allow": ["github.com/gorilla/websocket"], "stubs": upstream_stubs(), "instances": ci},
       {"package": "github.com/bokysan/socketace/v2/internal/socketace", "files": ["../C06/c06_handshake.go", "../C06/c06_model_header.go", "c04_server.go"],
        "native_replay": False, "stubs": socketace_stubs(), "instances": si},
+      {"package": "github.com/bokysan/socketace/v2/internal/commands/client", "files": ["c04_command.go"], "native_replay": True,
+       "instances": [{"entry": "VP_C04_Command", "tiers": ["quick", "thorough"], "params": {}, "timeout_s": 300, "expect_reach": ["wired"]}]},
      ],
      "bounds": {
+      "command": "clientCmd.Command.Startup for every combination of the secure / insecure flags and configured certificate material: Upstreams.MustSecure == Secure",
       "client": "Connect of Socket (tcp, tcp+tls, unix+tls, tcp6+tls), InputOutput (stdio, stdio+tls), Packet via ConnectPacket (udp with and without password), Http (http, https, ws+tls, wss) x require-security on/off x scripted server: seven capability lists (exact, none, other case, inside a list, near misses) with 0-2 arbitrary ASCII bytes replaced/inserted at every offset, Capabilities header absent, first status 200/409/500/101, second status 101/200/406/503, TLS handshake outcome symbolic",
       "server": "NewServerConnection on a plain and on a secure carrier x certificate manager {none, no certificate, certificate, failing, failing on second call} x Security header {seven values, absent} with 0-2 (3 thorough) arbitrary ASCII bytes at every offset, TLS handshake outcome symbolic",
       "observation": "an application marker written through the installed connection must not reach a plaintext carrier in clear and must pass the stub TLS connection whose handshake succeeded"
